@@ -158,6 +158,13 @@ class History:
             results.append(self.run(job, step))
         elif op == 'placed':
             results.extend(self.apply_placed(step))
+        elif op == 'fault':
+            from vf.sim.faults import apply_fault
+            apply_fault(self, step)
+        elif op == 'remember':
+            if step['pr'] in w.prs:
+                from vf.sim.c06sim import remember_report
+                remember_report(self, step['pr'])
         elif op == 'twin':
             self.apply_twin(step)
         elif op == 'open_foreign':
